@@ -88,3 +88,41 @@ def atomicity_items():
                         order_ok = False
     items.append(("G-render-first", order_ok, "gen renders the module before it opens the output file", "to_code(parsed_ast) is evaluated inside `with open(output_filename, 'a')`"))
     return items
+
+
+def file_count_items():
+    """C20.D1 (companion of the guards): the value the `number_of_files < 2` guard tests.  The assignment `number_of_files = ...` is
+    extracted mechanically from main (the statement as it stands, nothing else) and evaluated by CPython on every Namespace shape
+    (each kind given with 1-2 files or not, its name given or not): it must equal the number of file arguments."""
+    import ast
+    import itertools
+    from argparse import Namespace
+
+    from vf.pyvc import verify as V
+
+    fn, src, path = V.find_def_dotted("doctrans.__main__", "main")
+    stmt = next((n for n in ast.walk(fn) if isinstance(n, ast.Assign) and any(isinstance(t, ast.Name) and t.id == "number_of_files" for t in n.targets)), None)
+    if stmt is None:
+        return [("count-anchor", False, "main computes number_of_files", None)]
+    code = compile(ast.Module(body=[stmt], type_ignores=[]), "<number_of_files>", "exec")
+    bad = []
+    n = 0
+    kinds = ("argparse_function", "class", "function")
+    plural = {"argparse_function": "argparse_functions", "class": "classes", "function": "functions"}
+    for files in itertools.product((None, 1, 2), repeat=3):
+        for names in itertools.product((False, True), repeat=3):
+            ns = {"truth": "class"}
+            for k, f, nm in zip(kinds, files, names):
+                ns[plural[k]] = None if f is None else ["f%d.py" % i for i in range(f)]
+                ns[k + "_names"] = ["N"] if nm else None
+            env = {"args": Namespace(**ns), "vars": vars, "sum": sum, "len": len, "isinstance": isinstance, "list": list}
+            try:
+                exec(code, env)
+                got = env["number_of_files"]
+            except Exception as e:  # noqa
+                got = "%s: %s" % (type(e).__name__, e)
+            want = sum(f or 0 for f in files)
+            n += 1
+            if got != want:
+                bad.append((ns, got, want))
+    return [("count-files", not bad, "number_of_files equals the number of file arguments on all %d Namespace shapes (names never count)" % n, bad[:2])]
